@@ -47,7 +47,14 @@ class AssignUnit(corr.Unit):
             vt = vtypes(names, rng)
             k = rng.choice([1, 2, 3, 5, 8, 12, 20, 40]) if not biased else rng.choice([3, 4, 5, 6, 8])
             span = rng.choice([6, 24, 72]) * 3600
-            gran = rng.choice([60, 300, 900, 3600])
+            gran = rng.choice([60, 300, 900, 3600, 1, 7, 30, 3600])      # seconds matter too
+            if gran < 60:
+                # dense tables with short standing times: reuse decisions hinge on seconds (round-3 seed C20-s7)
+                span = rng.choice([600, 1800, 3600])
+                k = max(k, rng.choice([8, 12, 20]))
+                if rng.random() < 0.6:
+                    for info in vt.values():
+                        info["capacity"] = rng.choice([5, 2, 1])
             trips = []
             for _ in range(k):
                 d = rng.randrange(0, span // gran) * gran
@@ -59,7 +66,9 @@ class AssignUnit(corr.Unit):
                 if rng.random() < 0.004:
                     t = "ghost"
                 trips.append([d, a, t])
-            cases.append({"types": vt, "trips": trips})
+            if k >= 3 and rng.random() < 0.3:
+                trips.append(list(trips[rng.randrange(len(trips))]))        # two identical rotations (same line twice in a table)
+            cases.append({"types": vt, "trips": trips, "via_csv": rng.random() < 0.5})
         return cases
 
     def run_impl(self, case):
@@ -68,6 +77,22 @@ class AssignUnit(corr.Unit):
                  "arrival_time": (T0 + datetime.timedelta(seconds=a)).strftime(FMT),
                  "vehicle_type": t} for d, a, t in case["trips"]]
         import copy
+        if case.get("via_csv"):
+            # the trip table goes through the project's own CSV reader (glue: csv_to_dict), mixed-case header
+            import csv
+            import os
+            import tempfile
+            from spice_ev.generate.generate_from_csv import csv_to_dict
+            fd, path = tempfile.mkstemp(suffix=".csv", prefix="verif_c20_")
+            try:
+                with os.fdopen(fd, "w", newline="") as f:
+                    w = csv.writer(f)
+                    w.writerow(["Departure_time", "arrival_time", "vehicle_type"])
+                    for r in rows:
+                        w.writerow([r["departure_time"], r["arrival_time"], r["vehicle_type"]])
+                rows = csv_to_dict(path)
+            finally:
+                os.unlink(path)
         try:
             res = assign_vehicle_id(rows, copy.deepcopy(case["types"]))
             return {"ok": [r["vehicle_id"] for r in res]}
